@@ -6,6 +6,8 @@ from concurrent.futures import ThreadPoolExecutor
 VERIF = os.path.dirname(os.path.dirname(os.path.abspath(__file__)))
 REPO = os.environ.get('XV_REPO', '/repo')
 BUILD = os.environ.get('XV_BUILD', os.path.join(VERIF, '.build'))
+# XV_SMOKE=1: every exploration / model run gets a tiny budget - walks through all code paths of a tier (used to test the thorough tier's plumbing)
+SMOKE = bool(os.environ.get('XV_SMOKE'))
 WORKROOT = os.path.join(VERIF, '.work')
 SPEC = os.path.join(VERIF, 'spec')
 EVID = os.path.join(VERIF, 'evidence')
@@ -161,6 +163,8 @@ def tlc_mc(ctx, name, module, consts, invariants=(), properties=(), view=None, c
     # one model run never takes longer than VERIF_MC_TMO seconds (default 900): a run that does not finish is recorded as partial
     # (a note in the evidence), so that a whole thorough check stays within tens of minutes; raise it for a deeper single run
     tmo = min(tmo, int(os.environ.get('VERIF_MC_TMO', '900')))
+    if SMOKE:
+        tmo = min(tmo, 60)
     if heap.endswith('g') and int(heap[:-1]) > 12:
         heap = '12g'
     d = ctx.sub('mc_' + name)
@@ -227,6 +231,10 @@ def tlc_mc(ctx, name, module, consts, invariants=(), properties=(), view=None, c
         raise Infra('TLC failed on %s/%s' % (module, name))
     if expect == 'ok' and res['status'] == 'timeout' and not simulate:
         ctx.note('model run %s did not finish within %ds (partial: %d distinct states, no violation so far)' % (name, tmo, res['distinct']))
+    if expect == 'violation' and res['status'] == 'timeout':
+        # a toggle that ran out of time says nothing about the spec (machine load); it is recorded, not treated as vacuity
+        ctx.note('mechanism toggle %s did not finish within %ds (%d distinct states, no counterexample yet)' % (name, tmo, res['distinct']))
+        return res
     if expect == 'violation' and res['status'] not in ('violation', 'assert'):
         raise Infra('mechanism toggle %s produced no counterexample: the spec does not see this mechanism' % name)
     if res['uncovered'] and expect == 'ok' and res['status'] == 'ok':
@@ -238,6 +246,8 @@ def tlc_mc(ctx, name, module, consts, invariants=(), properties=(), view=None, c
 # exploration of the real code
 def explore(ctx, name, driver, progs, mode='dfs', pb=2, max_exec=20000, runs=0, steps=False, extra='', tmo=900, shard=None,
             max_steps=None):
+    if SMOKE:
+        max_exec, runs, tmo = min(max_exec or 300, 300), min(runs, 40), min(tmo, 150)
     d = ctx.sub('x_' + name)
     pf = os.path.join(d, 'progs.txt')
     open(pf, 'w').write('\n'.join(progs) + '\n')
@@ -593,7 +603,7 @@ def finish(ctx, level_rule, assumptions, extra_cov=None):
         'trace_validation': [{k: r[k] for k in ('name', 'module', 'driver', 'executions', 'accepted', 'wall_s', 'tlc_distinct')}
                              | {'rejected': len(r['rejected']), 'executions_run': r.get('executions_run', 0),
                                 'programs': r.get('programs', 0), 'truncated_programs': r.get('truncated', 0)} for r in ctx.tv],
-        'toggles_exercised': [r['name'] for r in ctx.mc if r['expect'] == 'violation'],
+        'toggles_exercised': [r['name'] for r in ctx.mc if r['expect'] == 'violation' and r['status'] in ('violation', 'assert')],
         'binding': ctx.binding, 'model_violations_not_transferred': ctx.model_violations, 'notes': ctx.notes, 'known_findings_hit': ctx.known_hits,
     }
     if extra_cov:
